@@ -608,23 +608,6 @@ func main() {
 		if len(endsS) > 0 {
 			endsArg = strings.Join(endsS, ",")
 		}
-		// expected (direct): the latest state ending at or below the cut
-		exp := -1
-		for i, e := range ends {
-			if e <= j.Cut {
-				exp = i
-			}
-		}
-		desc := fmt.Sprintf("db%d (%d bytes, state ends %s) cut=%d fill=%s seed=%d", j.Db, len(info.full), endsArg, j.Cut, j.Fill, j.Seed)
-		if crashed[j.ID] != "" || res == nil {
-			sig := "process-crash"
-			if strings.Contains(crashed[j.ID], "SIGBUS") || strings.Contains(crashed[j.ID], "fault") {
-				sig = "process-crash-sigbus"
-			}
-			t.Fail(sig, desc+" : the process running OpenDatabase/Repair/CheckDatabase died: "+crashed[j.ID])
-			t.Count("outcome=process-crash")
-			continue
-		}
 		// the bytes the implementation saw
 		data := append([]byte{}, info.full[:j.Cut]...)
 		switch j.Fill {
@@ -636,6 +619,34 @@ func main() {
 			data = append(data, g...)
 		case "corruptmark":
 			data = append(data, bytes.Repeat([]byte{0xff}, tailSize)...)
+		}
+		// what is really intact: the fill may by chance continue the original bytes (a zero
+		// where the file has a zero, a random byte equal to the original one - 1 in 256 per
+		// byte), so the effective cut is the length of the common prefix of the damaged and
+		// the original file: a state is completely on disk iff it ends at or below THAT
+		effCut := j.Cut
+		for effCut < len(data) && effCut < len(info.full) && data[effCut] == info.full[effCut] {
+			effCut++
+		}
+		if effCut != j.Cut {
+			t.Count("fill-continues-original-bytes")
+		}
+		// expected (direct): the latest state ending at or below the effective cut
+		exp := -1
+		for i, e := range ends {
+			if e <= effCut {
+				exp = i
+			}
+		}
+		desc := fmt.Sprintf("db%d (%d bytes, state ends %s) cut=%d (intact prefix %d) fill=%s seed=%d", j.Db, len(info.full), endsArg, j.Cut, effCut, j.Fill, j.Seed)
+		if crashed[j.ID] != "" || res == nil {
+			sig := "process-crash"
+			if strings.Contains(crashed[j.ID], "SIGBUS") || strings.Contains(crashed[j.ID], "fault") {
+				sig = "process-crash-sigbus"
+			}
+			t.Fail(sig, desc+" : the process running OpenDatabase/Repair/CheckDatabase died: "+crashed[j.ID])
+			t.Count("outcome=process-crash")
+			continue
 		}
 		stripped := bytes.TrimRight(data, "\x00")
 		// enough of the end of the file for the open decision: at least 128 bytes, and at
@@ -690,8 +701,7 @@ func main() {
 		case idx < 0:
 			crashOut = "!unknown-state"
 		}
-		garbageCut := j.Cut
-		t.Qf(crashOut, "crash %d %s", garbageCut, endsArg)
+		t.Qf(crashOut, "crash %d %s", effCut, endsArg)
 
 		// direct oracles
 		switch {
